@@ -61,6 +61,9 @@ C13Predict(e) ==
 \* C14 (single-event part) - no rate or predict call changes any attribute of the model
 C14ModelRO(e) == (IF e.model_after # e.model THEN {"C14.model_modified"} ELSE {})
                  \cup (IF e.model # e.model0 THEN {"C14.model_differs_from_construction"} ELSE {})
+\* ... nor the caller's ranks / scores lists (a list sorted in place makes the NEXT call that reuses it depend on this one)
+C14ArgsUntouched(e) == (IF e.ranks_after # e.ranks THEN {"C14.ranks_argument_modified"} ELSE {})
+                       \cup (IF e.scores_after # e.scores THEN {"C14.scores_argument_modified"} ELSE {})
 \* ... and predictions do not touch the ratings
 C14PredictPure(e) == IF e.after # e.teams THEN {"C14.predict_modified_rating"} ELSE {}
 
